@@ -139,11 +139,42 @@ fn waveform(out: &mut Out, r: &mut Rng, tapes: u64) {
     let off = r.below(8);
     for ti in 0..tapes {
         let pol = StepPol::of(ti + off + 8 * r.below(16));
-        let blocks = random_tape(r, 3, true);
+        let mut blocks = random_tape(r, 3, true);
+        if ti % 3 == 2 {
+            // (the tapes that get wound back carry a block longer than the player's window, where most of the time is spent)
+            let len = *r.pick(&[129usize, 200, 300]);
+            let mut b = r.bytes(len);
+            b[0] = 0xFF;
+            blocks.push(b);
+        }
         out.ev(json!({"ev":"tape","blocks":blocks}));
         let mut d = Deck::new(&blocks);
         out.ev(json!({"ev":"play","was_stopped":d.stopped()}));
         d.tap.play();
+        // a third of the tapes are wound back by the listener somewhere on the way (anywhere in the first pass: inside a
+        // pilot, inside a long block, in a pause) and then heard from the start to the end
+        if ti % 3 == 2 {
+            let total: u64 = blocks.iter().map(|b| 8063 * 2168 + 16 * 1710 * b.len() as u64 + 3_500_000).sum();
+            let until = r.below(total.max(1));
+            let mut t = 0u64;
+            while t < until && !d.stopped() && !d.failed {
+                let c = pol.next(r);
+                d.adv(c as usize, out);
+                t += c.max(1);
+            }
+            if !d.failed {
+                out.ev(json!({"ev":"rewind"}));
+                if let Err(e) = d.tap.rewind() {
+                    d.fail(out, format!("rewind: {e:?}"));
+                }
+                d.level = d.tap.current_bit();
+                d.since = 0;
+                if d.stopped() && !d.failed {
+                    out.ev(json!({"ev":"play","was_stopped":true}));
+                    d.tap.play();
+                }
+            }
+        }
         let mut guard = 0u64;
         while !d.stopped() && !d.failed {
             let c = pol.next(r) as usize;
@@ -303,7 +334,7 @@ fn ld_request(emu: &mut Emu, rq: &Req, prefill: Option<&[u8]>, max_frames: usize
     let cpu = emu.verif_cpu();
     json!({"ev":"ldbytes","req":{"a":rq.a,"carry":rq.carry as u8,"ix":rq.ix,"de":rq.de},
            "done":done,"carry":cpu.regs.get_flags() & 1,"ix":cpu.regs.get_ix(),"de":cpu.regs.get_de(),
-           "pc":cpu.regs.get_pc(),"base":base,"before":before,"after":after,"trapdiff":[],"frames":frames_taken,"playing":false})
+           "pc":cpu.regs.get_pc(),"base":base,"before":before,"after":after,"trapdiff":[],"frames":frames_taken,"playing":false,"fast_off":false})
 }
 
 fn random_blocks_for_loader(r: &mut Rng) -> Vec<Vec<u8>> {
@@ -367,8 +398,18 @@ fn fastload(out: &mut Out, r: &mut Rng, tapes: u64, m128_too: bool) {
         emu.load_tape(Tape::Tap(DynAsset::mem(tap_bytes(&blocks)))).expect("load_tape");
         out.ev(json!({"ev":"tape","blocks":blocks,"m128":m128}));
         let extra = 1 + r.below(2) as usize;
-        for k in 0..blocks.len() + extra {
+        let mut k = 0usize;
+        let mut rewinds = 0;
+        while k < blocks.len() + extra {
+            // now and then the host rewinds the (stopped) tape between two requests: the next request gets the first block
+            if k > 0 && rewinds < 2 && r.chance(1, 5) {
+                emu.rewind_tape().expect("rewind");
+                out.ev(json!({"ev":"rewind"}));
+                rewinds += 1;
+                k = 0;
+            }
             let blk = blocks.get(k);
+            k += 1;
             let rq = request_for(r, blk);
             // VERIFY requests compare against the block's own data most of the time
             let pre: Option<Vec<u8>> = match blk {
@@ -384,6 +425,15 @@ fn fastload(out: &mut Out, r: &mut Rng, tapes: u64, m128_too: bool) {
                 _ => None,
             };
             let frames = if blk.is_some() { 50 } else { 30 };
+            if blk.is_some() && r.chance(1, 6) {
+                // the host switches fast loading off for a while: with the deck stopped the ROM routine gets no signal, the
+                // request is not served and no block is used up
+                emu.set_fast_load(false);
+                let mut ev = ld_request(&mut emu, &rq, pre.as_deref(), 12, r);
+                ev["fast_off"] = json!(true);
+                out.ev(ev);
+                emu.set_fast_load(true);
+            }
             if blk.is_none() {
                 // past the end: compare the trap step with fast loading on and off
                 let ev = past_end_probe(&mut emu, &rq, frames, r);
